@@ -1,6 +1,7 @@
 import Iavl.Lemmas.WorkingHash
 import Iavl.Lemmas.MembershipSound
 import Iavl.Generated.FactsOk
+import Iavl.Lemmas.HashBinds
 /-
   C02 — the root hash is canonical.
 
@@ -40,6 +41,16 @@ theorem reads_preserve_state {K V : Type} [Ord K] [BEq K] (s : VState (OTree K V
   refine ⟨rfl, ?_, rfl, rfl, rfl, rfl⟩
   simp only [VTree.step, VState.step]
   cases findVer s.versions ver <;> rfl
+
+/-- **the root hash binds the contents**: two trees within the 64-bit magnitudes of the encoding that
+    hash to the same root hold the same pairs in the same order (indeed the same shape, heights, sizes and
+    node versions - only the unhashed routing keys may differ), or an explicit collision of `H` is
+    exhibited. Two histories ending in the same root hash therefore end in the same contents. -/
+theorem root_hash_binds_contents (hH : ∀ x, (H x).length = 32) (working : Nat) (a b : Node Bytes Bytes)
+    (ha : Bounded working a) (hb : Bounded working b) (hka : KeysBounded a) (hkb : KeysBounded b)
+    (heq : hashNode H working a = hashNode H working b) :
+    a.toList = b.toList ∨ Collision H :=
+  hash_binds_contents H hH working a b ha hb hka hkb heq
 
 /-- the hash has the size the on-disk format and ICS-23 assume -/
 theorem hash_size : Facts.hashSize = 32 := Facts.codec_ok.1
